@@ -160,14 +160,15 @@ def masks(draw, k, densities=None):
 
 @st.composite
 def messages(draw, max_len=64, min_len=0):
-    shape = draw(st.sampled_from(["random", "random", "random", "random", "random", "random", "zeros",
-                                  "leading_zeros", "single_one", "ones", "empty", "tiny"]))
+    shape = draw(st.sampled_from(["random", "random", "random", "random", "random", "random", "random", "random",
+                                  "random", "zeros", "leading_zeros", "single_one", "ones", "empty", "tiny"]))
     if shape == "empty" and min_len == 0:
         return ""
     if shape == "tiny":
         n = draw(st.integers(max(1, min_len), max(min_len, 6)))
     else:
-        n = draw(st.one_of(st.integers(max(1, min_len), max(min_len, 24)), st.integers(max(1, min_len), max_len)))
+        n = draw(st.one_of(st.integers(max(1, min_len), max(min_len, 24)), st.integers(max(1, min_len), max_len),
+                           st.integers(min(max_len, max(8, min_len)), max_len)))
     if shape == "zeros":
         return "0" * n
     if shape == "ones":
